@@ -64,7 +64,7 @@ theorem lam_ok_np {α : Type} (f : World → α) (g : World → World) :
 
 macro "np_step" : tactic => `(tactic| first
   | with_reducible exact NoPanic.pure _
-  | (with_reducible apply NoPanic.throw; first | (intro h; cases h; done) | (intro h; subst h; contradiction))
+  | ((with_reducible apply NoPanic.throw); first | (intro h; cases h; done) | (intro h; subst h; contradiction))
   | with_reducible exact NoPanic.get | with_reducible exact NoPanic.modify _
   | with_reducible exact takeFault_np | with_reducible exact logCall_np _
   | with_reducible exact setCache_np _ _ | with_reducible exact getCache_np _
@@ -139,7 +139,7 @@ theorem mustLoadLatest_np (k : KeyId) : NoPanic (mustLoadLatest k) := by
   unfold mustLoadLatest; np_auto [msLoadLatest_np]
 theorem createSK_np (x : Ctx) : NoPanic (loadLatestOrCreateSystemKey.createSK x) := by
   unfold loadLatestOrCreateSystemKey.createSK
-  np_auto [generateKey_np, keyCloseRaw_np, mustLoadLatest_np, systemKeyFromEKR_np]
+  np_auto [generateKey_np, keyCloseRaw_np, mustLoadLatest_np, systemKeyFromEKR_np, tryStoreSystemKey_np]
 theorem loadLatestOrCreateSystemKey_np (x : Ctx) : NoPanic (loadLatestOrCreateSystemKey x) := by
   unfold loadLatestOrCreateSystemKey
   np_auto [msLoadLatest_np, systemKeyFromEKR_np, createSK_np]
@@ -149,17 +149,21 @@ theorem intermediateKeyFromEKR_np (x : Ctx) (sk : Nat) (r : Row) (b : Bool) :
     NoPanic (intermediateKeyFromEKR x sk r b) := by
   unfold intermediateKeyFromEKR
   np_auto [getOrLoadSystemKey_np, withKey_aeadDecrypt_np, secretNew_np]
+theorem tryStoreIntermediateKey_np (x : Ctx) (ik sk : Nat) : NoPanic (tryStoreIntermediateKey x ik sk) := by
+  unfold tryStoreIntermediateKey
+  np_auto [msStore_np]
+  exact withKey_np _ _ fun ikm => withKey_np _ _ fun skm => aeadEncrypt_np _ _
 theorem createIntermediateKey_np (x : Ctx) (b : Bool) : NoPanic (createIntermediateKey x b) := by
   unfold createIntermediateKey
-  np_auto [generateKey_np, keyCloseRaw_np, mustLoadLatest_np, intermediateKeyFromEKR_np]
+  np_auto [generateKey_np, keyCloseRaw_np, mustLoadLatest_np, intermediateKeyFromEKR_np, tryStoreIntermediateKey_np]
   exact getOrLoadLatest_np _ _ _ _ _ fun _ => loadLatestOrCreateSystemKey_np x
 theorem getValidIntermediateKey_np (x : Ctx) (sk : Nat) (r : Row) (b : Bool) :
     NoPanic (getValidIntermediateKey x sk r b) := by
-  unfold getValidIntermediateKey; np_auto
+  unfold getValidIntermediateKey; np_auto [intermediateKeyFromEKR_np]
 theorem loadLatestOrCreateIntermediateKey_np (x : Ctx) (b : Bool) :
     NoPanic (loadLatestOrCreateIntermediateKey x b) := by
   unfold loadLatestOrCreateIntermediateKey
-  np_auto [msLoadLatest_np, createIntermediateKey_np, getValidIntermediateKey_np]
+  np_auto [msLoadLatest_np, createIntermediateKey_np, getValidIntermediateKey_np, getOrLoadSystemKey_np]
 theorem loadIntermediateKey_np (x : Ctx) (m : KeyMeta) (b : Bool) : NoPanic (loadIntermediateKey x m b) := by
   unfold loadIntermediateKey
   np_auto [msLoad_np, getOrLoadSystemKey_np, intermediateKeyFromEKR_np]
@@ -199,6 +203,10 @@ theorem closeSession_np (s : Nat) : NoPanic (closeSession s) := by
 theorem closeFactory_np (f : Nat) : NoPanic (closeFactory f) := by
   unfold closeFactory; np_auto [cacheClose_np]
 
+theorem advance_np (d : Nat) : NoPanic (advance d) := NoPanic.modify _
+theorem revoke_np (m : KeyMeta) : NoPanic (revoke m) := NoPanic.modify _
+theorem corruptRow_np (m : KeyMeta) (dp : Bool) : NoPanic (corruptRow m dp) := NoPanic.modify _
+
 /-- the `wrap` of `applyOp` never manufactures a panic. -/
 theorem applyOp_np (w : World) (op : Op) : (applyOp w op).1 ≠ .error .panic := by
   have key : ∀ {α : Type} (f : α → Out) (hf : ∀ a, f a ≠ .error .panic) (x : M α), NoPanic x →
@@ -222,8 +230,8 @@ theorem applyOp_np (w : World) (op : Op) : (applyOp w op).1 ≠ .error .panic :=
     exact key (fun _ => Out.unit) (fun _ h => by cases h) _ (NoPanic.bind (beginOp_np []) fun _ => closeSession_np s)
   | closeFactory f =>
     exact key (fun _ => Out.unit) (fun _ h => by cases h) _ (NoPanic.bind (beginOp_np []) fun _ => closeFactory_np f)
-  | advance d => exact key (fun _ => Out.unit) (fun _ h => by cases h) _ (NoPanic.modify (fun w => { w with now := w.now + d }))
-  | revoke m => exact key (fun _ => Out.unit) (fun _ h => by cases h) _ (NoPanic.modify _)
-  | corruptRow m dp => exact key (fun _ => Out.unit) (fun _ h => by cases h) _ (NoPanic.modify _)
+  | advance d => exact key (fun _ => Out.unit) (fun _ h => by cases h) _ (advance_np d)
+  | revoke m => exact key (fun _ => Out.unit) (fun _ h => by cases h) _ (revoke_np m)
+  | corruptRow m dp => exact key (fun _ => Out.unit) (fun _ h => by cases h) _ (corruptRow_np m dp)
 
 end AsherahVerif.Env
